@@ -208,6 +208,13 @@ fn gen_program(src: &mut Src, profile: Profile) -> Program {
                 bounds.push(b);
             }
         }
+        if src.chance(128) {
+            // ... half of them with 70 further bounds below zero, so that every (positive) observation lands in a bucket whose index
+            // is beyond 64
+            for k in 1..=70 {
+                bounds.push(-(k as f64));
+            }
+        }
     }
     bounds.sort_by(|a, b| a.partial_cmp(b).unwrap());
     let via_vec = src.chance(80);
